@@ -1,6 +1,17 @@
 """Property -> packs, bounded stand-ins, native replay harness, notes (read by pyvc.check)."""
 
 REGISTRY = {
+    "C08": dict(
+        packs=["c08"], level="proof",
+        replay=dict(script="replay/c08.py", args=["3"], timeout=600),
+        bounded=[dict(name="cross-process-seed-and-order", script="replay/c08.py", args=["3"],
+                      bound="25 values (nested dicts/sets, mixed keys, decimals, equal distinct strings) hashed in 6 fresh interpreters (3 PYTHONHASHSEEDs x 2 construction orders) "
+                            "against a reference process; 5 discrimination groups")],
+        trusted=["pickle._Pickler emits a stream that is a function of the tokens it is handed, injective incl. type tags", "md5 / sha1 collision-freeness",
+                 "sorted(): canonical on strict total orders, TypeError when a comparison raises, input-order dependent on partial orders"],
+        assumptions=["induction hypothesis: joblib's own hash of a sub-value is a function of its abstract value", "NumpyHasher (array branch) is not under contract (C19 covers persistence, not hashing)"],
+        undecided_clauses=["type discrimination of leaves is the base pickler's (assumed); the joblib-owned part is that no override maps two abstract values to one token sequence"],
+    ),
     "C05": dict(
         packs=["store", "mem"], level="proof",
         replay=dict(script="replay/mem.py", args=["C05"], timeout=600),
@@ -86,7 +97,7 @@ REGISTRY = {
         undecided_clauses=["readinto / readline are inherited from io.BufferedIOBase (external); covered only by the bounded native comparison"],
     ),
     "C14": dict(
-        packs=["c13"],
+        packs=["c13", "mem"],
         level="proof",
         replay=dict(script="replay/c13.py", args=["damaged", "{seed}", "3"], timeout=900),
         bounded=[dict(name="truncation-and-trailing-bytes", script="replay/c13.py", args=["damaged", "{seed}", "3"],
@@ -143,6 +154,14 @@ NOT_APPLICABLE = {
 }
 
 MANIFEST_TEXT = {
+    "C08": dict(
+        text="Relational contracts by self-composition on the real methods: two runs of Hasher._batch_setitems / _ConsistentSet.__init__ / save_set on arbitrary "
+             "re-orderings of one abstract collection, in interpreters with different string-hash seeds, hand identical token sequences to the base pickler - on the "
+             "sorted() path and on the TypeError path (keys replaced by joblib's own md5 digest, resolved from the module AST, not the builtin hash). Dispatch table "
+             "reconstructed from the real class body: set -> normalising handler, dict -> overridden _batch_setitems, table copied not shared. memoize never memoises "
+             "str/bytes; Hasher.__init__ fixes protocol 3; hash() validates the algorithm, uses a fresh hasher per call and digests exactly the stream.",
+        note="Assumed: base pickler, sorted(), md5. Known findings K1 (frozenset not normalised) and K2 (partially ordered elements) are reported on every run.",
+    ),
     "C05": dict(
         text="Crash invariant 'a result file (output.pkl, metadata.json) is never visible under its final name unless complete' asserted and discharged after EVERY "
              "file-system effect (mkdir, open-for-writing, write, close, atomic replace, any prefix of rmtree) of dump_item, store_metadata, store_cached_func_code, "
